@@ -150,9 +150,9 @@ pub fn sub_ascii_agree<const H: usize, const N: usize, const K: u8, const ARM: u
 
 /// canary: must FAIL
 pub fn exact_canary() {
-    let i = inputs::<4, 2, 0>();
+    let i = inputs::<3, 1, 0>();
     let mut m = small_matcher(i.cfg.clone(), 8);
-    let r = m.substring_match_ascii::<false>(&i.hay, &i.needle, &mut Vec::new());
+    let r = m.substring_match_1_ascii::<false>(&i.hay, i.needle[0], &mut Vec::new());
     std::mem::forget(m);
     assert!(r.is_none());
 }
